@@ -45,12 +45,34 @@ def gen(c):
             p.case(lines, cost=0.8 + (nm or 0) / 50.0); c.distinct([(kind, 'custom', nm, cu)])
     return p
 
+def reused(c, p):
+    """the digest of a message computed on an object that was used before: re-initialised after 0, 3, 8, 16, 24
+    absorbed bytes (with and without a finalisation in between), and on a copy"""
+    from c07 import init_line, sq_line
+    rng = c.rng
+    for kind in ('hash', 'hasha', 'xof', 'xofa'):
+        for k in (0, 3, 8, 16, 24):
+            for fin in (0, 1):
+                m = pattern(rng, rng.choice([0, 5, 8, 21]))
+                lines = [init_line(rng, kind), 'sp.absorb kind=%s obj=1 in=%s' % (kind, hx(pattern(rng, k, 'rand')))]
+                if fin: lines.append(sq_line(rng, kind, 32))
+                lines += [init_line(rng, kind, 1, re=1), 'sp.absorb kind=%s obj=1 in=%s' % (kind, hx(m)), sq_line(rng, kind, 32), 'sp.free kind=%s obj=1' % kind]
+                p.case(lines, cost=0.5); c.distinct([(kind, 'reused', k, fin)])
+
 def run(c):
     c.mc_bg('MC_Sponge', disabled=('DoCopy', 'DoSqueeze2', 'ReAbsorb'))
     c.assumptions += ['message/name/customisation VALUES sampled; length classes (mod rate, block count), declared lengths around 32 and 2^29, name lengths around 32 enumerated',
                       'expected digests computed by TLC from spec/AsconModes.tla (Xof, Xofa, Hash, Hasha, XofFixed, CXof), anchored on reference KATs']
     p = gen(c)
+    reused(c, p)
     c.tv(p, 'rel', 'hash', max_cost=20.0)
+    # the C++ classes hash, hasha, xof, xofa and the fixed-length templates compute the same functions
+    import c17
+    class Sub:
+        def __init__(s, c): s.rng = c.rng; s.tier = 'quick'; s.cov = {}
+        def distinct(s, items): pass
+    drv, cmd, out = build_extra('cxx')
+    if drv: c.tv(c17.cxx_plan(Sub(c)), 'rel', 'cxx', drv=drv, max_cost=20.0)
     for fl in (('c64', 'c32', 'dxor') if c.tier == 'thorough' else ('c32', 'dxor')):
         c.tv(p, fl, 'hash', max_cost=20.0)      # per-backend pre-computed initial states
     c.cov['rule'] = 'case = (function, |M| class) / (output length) / (declared length) / (name length, custom length); distinct = those tuples'
